@@ -81,7 +81,7 @@ where
 
     /// Prepare BroadcastingStore for forwarding headers it received, by setting
     /// the header height it should start at
-    pub(crate) fn init_broadcast(&mut self, head: ExtendedHeader) {
+    pub(crate) async fn init_broadcast(&mut self, head: ExtendedHeader) {
         if self.last_sent_height.is_none() {
             // First initialisation means Syncer has acquired a network head for the first time,
             // start from there
@@ -90,8 +90,10 @@ where
         } else {
             // Subsequent initialisations happen when syncer re-connects to the network
             // this could have caused a gap in sent heights. This will get sorted out on
-            // next [`insert`].
+            // next [`insert`], unless the new head is the one we were waiting for, in
+            // which case it (and anything queued behind it) can be sent right away.
             self.pending.push(vec![head]);
+            self.send_pending().await;
         }
     }
 
@@ -130,6 +132,13 @@ where
             self.pending.push(range);
         }
 
+        self.send_pending().await;
+
+        Ok(())
+    }
+
+    /// Send all the pending ranges which became contiguous with what was already sent.
+    async fn send_pending(&mut self) {
         let mut i = 0;
         while i < self.pending.len() {
             let last_sent_height = self
@@ -148,8 +157,6 @@ where
                 i += 1;
             }
         }
-
-        Ok(())
     }
 
     async fn send_range(&mut self, headers: Vec<ExtendedHeader>) {
